@@ -133,6 +133,101 @@ fn discover_api(repo: &str) -> String {
     out
 }
 
+/// Array literals of key codes and of bytes spelled out in the tree's source ("magic sequences": a recogniser for a
+/// particular run of keys or bytes has to name them somewhere).  They become workloads of their own.
+fn magic_sequences(repo: &str) -> (Vec<Vec<String>>, Vec<Vec<u8>>) {
+    fn rs_files(dir: &Path, out: &mut Vec<std::path::PathBuf>) {
+        if let Ok(rd) = fs::read_dir(dir) {
+            let mut v: Vec<_> = rd.flatten().map(|e| e.path()).collect();
+            v.sort();
+            for p in v {
+                if p.is_dir() {
+                    rs_files(&p, out);
+                } else if p.extension().map(|e| e == "rs").unwrap_or(false) {
+                    out.push(p);
+                }
+            }
+        }
+    }
+    let mut files = Vec::new();
+    rs_files(&Path::new(repo).join("src"), &mut files);
+    let mut keys: Vec<Vec<String>> = Vec::new();
+    let mut bytes: Vec<Vec<u8>> = Vec::new();
+    let num = |t: &str| -> Option<u64> {
+        let t = t.trim().replace('_', "");
+        let t = t.trim_end_matches("u8").trim_end_matches("u16").trim_end_matches("u32").trim_end_matches("u64");
+        if let Some(h) = t.strip_prefix("0x") {
+            u64::from_str_radix(h, 16).ok()
+        } else {
+            t.parse::<u64>().ok()
+        }
+    };
+    for f in files {
+        println!("cargo:rerun-if-changed={}", f.display());
+        let Ok(src) = fs::read_to_string(&f) else { continue };
+        let src: String = src.lines().map(|l| match l.find("//") { Some(i) => &l[..i], None => l }).collect::<Vec<_>>().join("\n");
+        let b = src.as_bytes();
+        // innermost bracketed spans
+        let mut i = 0;
+        while i < b.len() {
+            if b[i] == b'[' {
+                let mut j = i + 1;
+                while j < b.len() && b[j] != b']' && b[j] != b'[' {
+                    j += 1;
+                }
+                if j < b.len() && b[j] == b']' {
+                    let inner = &src[i + 1..j];
+                    let items: Vec<&str> = inner.split(',').map(|x| x.trim()).filter(|x| !x.is_empty()).collect();
+                    if (2..=16).contains(&items.len()) {
+                        let ks: Vec<String> = items
+                            .iter()
+                            .filter_map(|it| {
+                                let it = it.trim_start_matches("Some(").trim_end_matches(')');
+                                let name = it.rsplit("KeyCode::").next()?;
+                                if it.contains("KeyCode::") && !name.is_empty() && name.chars().all(|c| c.is_ascii_alphanumeric()) {
+                                    Some(name.to_string())
+                                } else {
+                                    None
+                                }
+                            })
+                            .collect();
+                        if ks.len() == items.len() && !keys.contains(&ks) && keys.len() < 24 {
+                            keys.push(ks);
+                        }
+                        let ns: Vec<u64> = items.iter().filter_map(|it| num(it)).collect();
+                        if ns.len() == items.len() && ns.iter().all(|n| *n <= 0xFF) {
+                            let v: Vec<u8> = ns.iter().map(|n| *n as u8).collect();
+                            if !bytes.contains(&v) && bytes.len() < 24 {
+                                bytes.push(v);
+                            }
+                        }
+                    }
+                    i = j;
+                }
+            }
+            i += 1;
+        }
+        // long hexadecimal literals: a byte pattern packed into one integer
+        for tok in src.split(|c: char| !(c.is_ascii_alphanumeric() || c == '_')) {
+            if tok.starts_with("0x") && tok.replace('_', "").len() >= 2 + 5 {
+                if let Some(n) = num(tok) {
+                    let mut v: Vec<u8> = n.to_be_bytes().iter().copied().skip_while(|x| *x == 0).collect();
+                    if (2..=8).contains(&v.len()) && bytes.len() < 24 {
+                        if !bytes.contains(&v) {
+                            bytes.push(v.clone());
+                        }
+                        v.reverse();
+                        if !bytes.contains(&v) {
+                            bytes.push(v);
+                        }
+                    }
+                }
+            }
+        }
+    }
+    (keys, bytes)
+}
+
 fn main() {
     println!("cargo:rerun-if-env-changed=VERIF_REPO");
     let repo = env::var("VERIF_REPO").unwrap_or_else(|_| "/repo".to_string());
@@ -198,6 +293,20 @@ fn main() {
             unknown.push(t);
         }
     }
+    let (mkeys, mbytes) = magic_sequences(&repo);
+    out.push_str("/// runs of key codes / bytes spelled out as array literals (or packed hex literals) in the tree's source\npub fn magic_key_sequences() -> Vec<Vec<pc_keyboard::KeyCode>> {\n    vec![\n");
+    for ks in &mkeys {
+        out.push_str("        vec![");
+        for k in ks {
+            out.push_str(&format!("pc_keyboard::KeyCode::{}, ", k));
+        }
+        out.push_str("],\n");
+    }
+    out.push_str("    ]\n}\npub fn magic_byte_sequences() -> Vec<Vec<u8>> {\n    vec![\n");
+    for bs in &mbytes {
+        out.push_str(&format!("        vec!{:?},\n", bs));
+    }
+    out.push_str("    ]\n}\n");
     out.push_str("pub fn unmonitored_layout_impls() -> &'static [&'static str] {\n    &[");
     for t in &unknown {
         out.push_str(&format!("\"{}\", ", t));
